@@ -40,6 +40,26 @@ func TestVerif_C37_BeaconSequential(t *testing.T) {
 		for i := range seeds {
 			seeds[i] = c37BeaconGenSeed(t, "seed")
 		}
+		// near twins: the last seed differs from the first only in one high bit
+		// (64..255), one low bit, or by a multiple of 2^64
+		if nSeeds > 1 && rapid.Bool().Draw(t, "nearTwin") {
+			r := new(big.Int).Set(seeds[0])
+			switch rapid.SampledFrom([]string{"high-bit", "low-bit", "add-2^64", "low-64-only", "times-16"}).Draw(t, "near") {
+			case "high-bit":
+				r.Xor(r, new(big.Int).Lsh(big.NewInt(1), uint(rapid.IntRange(64, 255).Draw(t, "highBit"))))
+			case "low-bit":
+				r.Xor(r, new(big.Int).Lsh(big.NewInt(1), uint(rapid.IntRange(0, 63).Draw(t, "lowBit"))))
+			case "add-2^64":
+				r.Add(r, new(big.Int).Lsh(big.NewInt(int64(rapid.IntRange(1, 1000).Draw(t, "k"))), 64))
+			case "low-64-only":
+				r.SetUint64(r.Uint64())
+			default:
+				r.Lsh(r, 4)
+			}
+			if r.BitLen() <= 256 {
+				seeds[nSeeds-1] = r
+			}
+		}
 		d := NewDeduplicator(nil)
 		var seen []*big.Int
 		var hist []string
